@@ -283,4 +283,42 @@ example : (chunksOf 2 [[1, 2], [], [3], [4, 5, 6], [7]]).length = 3 ∧
     mergeSparse ((chunksOf 2 [[1, 2], [], [3], [4, 5, 6], [7]]).map lookupToSparse)
       = ([0, 2, 2, 3, 6, 7], [1, 2, 3, 4, 5, 6, 7]) := by decide +kernel
 
+/-! ### no spurious failure (what the fixed D6 / n_valid defects were about) -/
+
+/-- "for all reference statistics …, all threshold settings with each strict threshold above its
+floor, all gene lists": `score_differential_genes` returns (never raises) whenever there is at
+least one gene and the arrays have one entry per gene — whatever `n_valid`, cluster sizes, gene
+list, exact or approximate test. -/
+theorem no_error (pOrder : List Nat) (c : Config) (n1 n2 : Nat) (praw : List Rat)
+    (g : List GeneScore) (mean1 mean2 : List Rat) (ht : ThresholdsOK c.th) (hg : g ≠ [])
+    (hp : praw.length = g.length) :
+    ∃ out, scoreCoreWith pOrder c n1 n2 praw g mean1 mean2 = .ok out :=
+  scoreCore_total pOrder c n1 n2 mean1 mean2 ht hg hp
+
+/-- the same for one pair of the p-value-mask route: no `IndexError` for `n_valid > n_genes`
+(fix 6815ee0), no error for clusters of one cell -/
+theorem mask_no_error (pOrder : List Nat) (r16 : Rat → Rat) (t : Thresholds) (nValid : Nat)
+    (geneIdx : Option (List Nat)) (n1 n2 : Nat) (praw : List Rat) (g : List GeneScore)
+    (mean1 mean2 : List Rat) (ht : ThresholdsOK t) (hg : g ≠ []) :
+    ∃ out, maskRouteWith pOrder r16 t nValid geneIdx n1 n2 praw g mean1 mean2 = .ok out :=
+  maskRoute_total pOrder r16 nValid geneIdx n1 n2 praw mean1 mean2 ht hg
+
+/-- "all worker counts": every chunk handed to a mask-route worker — a run of `k ≥ 0`
+consecutive pair indices starting anywhere, in particular a single pair (the last chunk when
+`n_pairs ≡ 1 mod n_per`, or a 2-leaf taxonomy) — passes the workers' consecutive-pairs test
+(fix 9252ab1; before it `k = 1` raised). -/
+theorem chunk_consecutive_ok (a k : Nat) : consecutiveCheck (List.range' a k) = .ok () :=
+  consecutive_ok a k
+
+/-- the chunk size of `create_sparse_by_pair_marker_file` is a positive multiple of 8 for every
+number of pairs and workers (so every `col0` is a multiple of 8, as the workers insist) -/
+theorem nPer_multiple_of_8 (nPairs nProc : Nat) :
+    nPerMain nPairs nProc % 8 = 0 ∧ 8 ≤ nPerMain nPairs nProc :=
+  nPerMain_mod8 nPairs nProc
+
+example : ThresholdsOK th0 ∧ g0 ≠ [] ∧ p0.length = g0.length ∧
+    consecutiveCheck [104] = .ok () ∧ nPerMain 105 4 = 8 ∧ nPerMain 105 1 = 48 := by
+  refine ⟨?_, by decide, by decide, by decide +kernel, by decide, by decide⟩
+  unfold ThresholdsOK th0; norm_num
+
 end CTM.C11
